@@ -169,6 +169,11 @@ pub trait Prop: Sync {
     fn breadcrumbs(&self) -> bool {
         false
     }
+    /// Run the shards of this part in separate single-threaded child processes instead of threads
+    /// (for code under test whose native library keeps per-process / per-thread global state).
+    fn process_isolated(&self) -> bool {
+        false
+    }
 }
 
 pub struct Crumb {
@@ -461,7 +466,19 @@ pub struct RunCfg {
 
 /// Runs `cases` generated cases of `prop`, sharded over threads.
 pub fn run_generated<P: Prop>(prop: &P, cfg: &RunCfg, cases: u64, known: &[KnownFinding]) -> PartResult {
+    if prop.process_isolated() && std::env::var("VP_SHARD").is_err() {
+        return run_in_child_processes(prop, cfg, cases, known);
+    }
     let threads = cfg.threads.max(1) as u64;
+    // inside a shard child: run exactly one shard of `VP_SHARD=<i>/<n>` on this thread
+    let (shard_lo, shard_hi, threads) = match std::env::var("VP_SHARD").ok().filter(|_| prop.process_isolated()) {
+        Some(v) => {
+            let (i, n) = v.split_once('/').expect("VP_SHARD=i/n");
+            let (i, n): (u64, u64) = (i.parse().unwrap(), n.parse().unwrap());
+            (i, i + 1, n)
+        },
+        None => (0, threads, threads),
+    };
     let stop = AtomicBool::new(false);
     let first_fail: Mutex<Option<(Vec<u64>, Fail)>> = Mutex::new(None);
     let total = Mutex::new(Stats::default());
@@ -469,7 +486,7 @@ pub fn run_generated<P: Prop>(prop: &P, cfg: &RunCfg, cases: u64, known: &[Known
     let counter = AtomicU64::new(0);
 
     std::thread::scope(|scope| {
-        for shard in 0..threads {
+        for shard in shard_lo..shard_hi {
             let stop = &stop;
             let first_fail = &first_fail;
             let total = &total;
@@ -677,6 +694,9 @@ pub struct Report {
     pub assumptions: Vec<String>,
     pub started: Instant,
     pub extra: BTreeMap<String, Value>,
+    /// parts computed by another binary (engine E4), see `external_parts_json`
+    pub external: Vec<Value>,
+    pub external_wall_s: f64,
 }
 
 impl Report {
@@ -689,6 +709,8 @@ impl Report {
             assumptions: vec![],
             started: Instant::now(),
             extra: BTreeMap::new(),
+            external: vec![],
+            external_wall_s: 0.0,
         }
     }
 
@@ -698,7 +720,7 @@ impl Report {
 
     /// Writes evidence + replay files, prints the verdict lines, returns the exit code.
     pub fn finish(self) -> i32 {
-        let wall = self.started.elapsed().as_secs_f64();
+        let wall = self.started.elapsed().as_secs_f64() + self.external_wall_s;
         let mut evaluations = 0u64;
         let mut distinct = 0u64;
         let mut samples: Vec<Value> = vec![];
@@ -736,7 +758,35 @@ impl Report {
             }
         }
 
+        for e in &self.external {
+            evaluations += e["evaluations"].as_u64().unwrap_or(0);
+            distinct += e["distinct_nontrivial"].as_u64().unwrap_or(0);
+            all_exhaustive &= e["exhaustive"].as_bool().unwrap_or(false);
+            if let Some(arr) = e["samples"].as_array() {
+                for s in arr {
+                    if samples.len() < 8 {
+                        samples.push(json!({"part": e["part"], "case": s}));
+                    }
+                }
+            }
+            rules.push(format!("[{}] {}", e["part"].as_str().unwrap_or("?"), e["rule"].as_str().unwrap_or("")));
+            if e["violation"].as_bool().unwrap_or(false) {
+                violations += 1;
+            }
+            let mut pj = e.clone();
+            if let Some(o) = pj.as_object_mut() {
+                o.remove("samples");
+                o.remove("rule");
+            }
+            parts_json.push(pj);
+        }
+
         let mut replay_paths = vec![];
+        for e in &self.external {
+            if let Some(r) = e["replay"].as_str() {
+                replay_paths.push(r.to_string());
+            }
+        }
         for p in &self.parts {
             if let Some(f) = &p.failure {
                 violations += 1;
@@ -816,12 +866,66 @@ impl Report {
                 labels.join(" ")
             );
         }
+        for e in &self.external {
+            println!(
+                "  [{}] n={} nontrivial={} distinct={} (engine {})",
+                e["part"].as_str().unwrap_or("?"),
+                e["evaluations"],
+                e["nontrivial"],
+                e["distinct_nontrivial"],
+                e["engine"].as_str().unwrap_or("?")
+            );
+        }
         if violations > 0 {
             1
         } else {
             0
         }
     }
+}
+
+/// Used by a secondary binary: prints the verdict lines for its parts, writes replay files and returns
+/// the parts as JSON for the main harness to merge into the evidence file.
+pub fn external_parts_json(id: &str, cfg: &RunCfg, parts: &[PartResult], engine: &str, wall_s: f64) -> Value {
+    let mut out = vec![];
+    for p in parts {
+        let labels: BTreeMap<String, u64> = p.stats.labels.iter().map(|(k, v)| (k.to_string(), *v)).collect();
+        let mut replay = Value::Null;
+        for k in &p.known_hits {
+            println!("KNOWN-FINDING: property={} {} [{}]", id, k.what, k.signature);
+        }
+        if let Some(f) = &p.failure {
+            let h = hash_words(&f.choices);
+            let dir = format!("{VERIF_DIR}/replays");
+            let _ = std::fs::create_dir_all(&dir);
+            let path = format!("{dir}/{}-{}-{:016x}.json", id, f.part, h);
+            let body = json!({
+                "property": f.property, "part": f.part, "signature": f.signature, "message": f.message,
+                "choices": f.choices, "case": f.case, "shrink_runs": f.shrink_runs, "seed": cfg.seed, "tier": cfg.tier,
+                "engine": engine,
+            });
+            std::fs::write(&path, serde_json::to_string_pretty(&body).unwrap()).expect("write replay");
+            println!("--- failing case ({} / {}): {}", id, f.part, f.message);
+            println!("{}", serde_json::to_string_pretty(&f.case).unwrap());
+            println!("VIOLATION property={} replay={}", id, path);
+            replay = json!(path);
+        }
+        out.push(json!({
+            "part": p.part,
+            "engine": engine,
+            "rule": p.rule,
+            "evaluations": p.stats.evaluations,
+            "nontrivial": p.stats.nontrivial,
+            "distinct_nontrivial": p.stats.distinct_nontrivial.len(),
+            "exhaustive": p.exhaustive,
+            "classes": labels,
+            "excluded_known": p.stats.excluded_known,
+            "samples": p.stats.samples,
+            "violation": p.failure.is_some(),
+            "replay": replay,
+        }));
+    }
+    json!({"property": id, "parts": out, "wall_s": wall_s})
 }
 
 /// Shared quiet panic hook: the environment sets RUST_BACKTRACE, and caught panics inside
@@ -832,4 +936,172 @@ pub fn install_quiet_panic_hook() {
 
 pub fn arc<T>(t: T) -> Arc<T> {
     Arc::new(t)
+}
+
+/// Parent side of `vp check`: runs the real check in a child process; if the child is killed (abort,
+/// segfault, ...) the breadcrumbs left by its shards are re-run one by one in fresh children and the
+/// case that kills the process again is reported as a violation.
+pub fn supervise(args: &[String]) -> i32 {
+    let id = args[2].clone();
+    let dir = format!("/dev/shm/vp-crumbs-{}", std::process::id());
+    let _ = std::fs::remove_dir_all(&dir);
+    let crumbs_ok = std::fs::create_dir_all(&dir).is_ok();
+    let mut cmd = std::process::Command::new(std::env::current_exe().unwrap());
+    cmd.args(&args[1..]).arg("--worker");
+    if crumbs_ok {
+        cmd.env("VP_CRUMBS", &dir);
+    }
+    let status = cmd.status().expect("spawn worker");
+    let code = match status.code() {
+        Some(c @ (0 | 1 | 2)) => c,
+        _ => {
+            println!("worker process for {id} terminated abnormally ({status}); looking for the case that did it");
+            let mut verdict = 2;
+            if let Ok(rd) = std::fs::read_dir(&dir) {
+                let mut files: Vec<_> = rd.filter_map(|e| e.ok()).map(|e| e.path()).collect();
+                files.sort();
+                for f in files {
+                    let name = f.file_name().unwrap().to_string_lossy().to_string();
+                    let part = name.rsplit_once('-').map(|(p, _)| p.to_string()).unwrap_or(name.clone());
+                    let Some(choices) = Crumb::read(f.to_str().unwrap()) else { continue };
+                    let tmp = format!("{dir}/replay-{name}.json");
+                    let body = serde_json::json!({
+                        "property": id, "part": part, "signature": "process-crash",
+                        "message": format!("running this case terminated the process abnormally ({status})"),
+                        "choices": choices,
+                    });
+                    std::fs::write(&tmp, serde_json::to_string_pretty(&body).unwrap()).unwrap();
+                    let st = std::process::Command::new(std::env::current_exe().unwrap())
+                        .args(["replay", &tmp, "--worker"])
+                        .stdout(std::process::Stdio::null())
+                        .status()
+                        .expect("spawn replay worker");
+                    if !matches!(st.code(), Some(0 | 1 | 2)) {
+                        let out_dir = format!("{}/replays", VERIF_DIR);
+                        let _ = std::fs::create_dir_all(&out_dir);
+                        let path = format!("{out_dir}/{id}-{part}-crash-{:016x}.json", hash_words(&choices));
+                        std::fs::copy(&tmp, &path).unwrap();
+                        println!("--- case of {id}/{part} that kills the process ({st}); replay with ./check --replay {path}");
+                        println!("VIOLATION property={id} replay={path}");
+                        verdict = 1;
+                        break;
+                    }
+                }
+            }
+            if verdict == 2 {
+                println!("INCONCLUSIVE: worker for {id} died ({status}) and no single breadcrumb case reproduces it");
+            }
+            verdict
+        },
+    };
+    let _ = std::fs::remove_dir_all(&dir);
+    code
+}
+
+
+/// Parent side of `replay`: runs the replay in a child so that a case which kills the process is
+/// still reported as a violation.
+pub fn supervise_replay(args: &[String]) -> i32 {
+    let status = std::process::Command::new(std::env::current_exe().unwrap())
+        .args(&args[1..])
+        .arg("--worker")
+        .status()
+        .expect("spawn replay worker");
+    match status.code() {
+        Some(c @ (0 | 1 | 2)) => c,
+        _ => {
+            let v: Value = std::fs::read_to_string(&args[2]).ok().and_then(|t| serde_json::from_str(&t).ok()).unwrap_or(Value::Null);
+            println!("replay: the case terminated the process abnormally ({status})");
+            println!("VIOLATION property={} replay={}", v["property"].as_str().unwrap_or("?"), args[2]);
+            1
+        },
+    }
+}
+
+// ---------------------------------------------------------------------------------------
+// process-isolated shards
+
+pub fn part_result_to_json(r: &PartResult) -> Value {
+    json!({
+        "evaluations": r.stats.evaluations,
+        "nontrivial": r.stats.nontrivial,
+        "distinct": r.stats.distinct_nontrivial.iter().collect::<Vec<_>>(),
+        "labels": r.stats.labels.iter().map(|(k, v)| (k.to_string(), *v)).collect::<BTreeMap<String, u64>>(),
+        "excluded_known": r.stats.excluded_known,
+        "samples": r.stats.samples,
+        "known_hits": r.known_hits.iter().map(|k| k.signature.clone()).collect::<Vec<_>>(),
+        "failure": r.failure.as_ref().map(|f| json!({
+            "property": f.property, "part": f.part, "choices": f.choices, "signature": f.signature,
+            "message": f.message, "case": f.case, "shrink_runs": f.shrink_runs,
+        })),
+    })
+}
+
+fn run_in_child_processes<P: Prop>(prop: &P, cfg: &RunCfg, _cases: u64, known: &[KnownFinding]) -> PartResult {
+    let n = cfg.threads.max(1);
+    let exe = std::env::current_exe().expect("current exe");
+    let mut children = vec![];
+    for i in 0..n {
+        let child = std::process::Command::new(&exe)
+            .args(["check", prop.id(), "--part", prop.part(), "--tier", &cfg.tier, "--worker"])
+            .env("VP_SHARD", format!("{i}/{n}"))
+            .env("VP_THREADS", "1")
+            .env("VERIF_SEED", cfg.seed.to_string())
+            .stdout(std::process::Stdio::piped())
+            .stderr(std::process::Stdio::null())
+            .spawn()
+            .expect("spawn shard process");
+        children.push(child);
+    }
+    let mut stats = Stats::default();
+    let mut failure: Option<Failure> = None;
+    let mut hits: BTreeMap<String, KnownFinding> = BTreeMap::new();
+    for (i, child) in children.into_iter().enumerate() {
+        let out = child.wait_with_output().expect("wait shard");
+        let text = String::from_utf8_lossy(&out.stdout).to_string();
+        let line = text.lines().find(|l| l.starts_with("VP_SHARD_RESULT "));
+        let Some(line) = line else {
+            // the shard died: die the same way so that the supervising parent looks at the breadcrumbs
+            eprintln!("shard {i}/{n} of {}/{} ended without a result ({})", prop.id(), prop.part(), out.status);
+            std::process::abort();
+        };
+        let v: Value = serde_json::from_str(&line["VP_SHARD_RESULT ".len()..]).expect("shard json");
+        stats.evaluations += v["evaluations"].as_u64().unwrap_or(0);
+        stats.nontrivial += v["nontrivial"].as_u64().unwrap_or(0);
+        for d in v["distinct"].as_array().into_iter().flatten() {
+            if let Some(x) = d.as_u64() {
+                stats.distinct_nontrivial.insert(x);
+            }
+        }
+        for (k, c) in v["labels"].as_object().into_iter().flatten() {
+            let key: &'static str = Box::leak(k.clone().into_boxed_str());
+            *stats.labels.entry(key).or_default() += c.as_u64().unwrap_or(0);
+        }
+        for (k, c) in v["excluded_known"].as_object().into_iter().flatten() {
+            *stats.excluded_known.entry(k.clone()).or_default() += c.as_u64().unwrap_or(0);
+        }
+        for s in v["samples"].as_array().into_iter().flatten() {
+            if stats.samples.len() < 3 {
+                stats.samples.push(s.clone());
+            }
+        }
+        for sig in v["known_hits"].as_array().into_iter().flatten() {
+            if let Some(k) = known.iter().find(|k| Some(k.signature.as_str()) == sig.as_str() && k.property == prop.id()) {
+                hits.insert(k.signature.clone(), k.clone());
+            }
+        }
+        if failure.is_none() && !v["failure"].is_null() {
+            let f = &v["failure"];
+            failure = Some(Failure {
+                property: f["property"].as_str().unwrap_or("").to_string(),
+                part: f["part"].as_str().unwrap_or("").to_string(),
+                choices: f["choices"].as_array().map(|a| a.iter().filter_map(|x| x.as_u64()).collect()).unwrap_or_default(),
+                signature: f["signature"].as_str().unwrap_or("").to_string(),
+                message: f["message"].as_str().unwrap_or("").to_string(),
+                case: f["case"].clone(),
+                shrink_runs: f["shrink_runs"].as_u64().unwrap_or(0) as usize,
+            });
+        }
+    }
+    PartResult { part: prop.part(), rule: prop.rule(), stats, failure, known_hits: hits.into_values().collect(), exhaustive: false }
 }
